@@ -30,6 +30,7 @@ META = {
     "encoded": ["elaborate() of csr.Multiplexer, csr.Decoder, csr.Bridge, csr.Register and field actions, "
                 "csr.EventMonitor, event.Monitor, WishboneCSRBridge, wishbone.Decoder, wishbone.Arbiter, WishboneSRAM, "
                 "gpio.Peripheral", "csr.bus.Multiplexer._Shadow.prepare (termination, by execution)"],
+    "also": 'multiplexers probed before / extended after construction; arbiters with a shared-bus memory map; post-elaboration add() compared with a never-elaborated twin; index-vs-digit register names; symbolic (16-bit vector) shadow-balancing termination harness',
     "bounds": "a seeded sample of the quick configuration families of C04,C06-C08,C10-C16 (thorough: 4x larger, "
               "from the thorough families) + register bridges over csr.Builder maps with Cluster/Index scopes and "
               "colliding flattened names; two elaborations per instance; miter depth D = 8 frames from reset",
